@@ -532,4 +532,24 @@ Proof.
   - intros e He. destruct (Hall2 e He) as [_ Hr]. lia.
   - exact Hcov2.
 Qed.
+(* two readings of the specification: a link no rule targets behaves as if there were no rules (the latest control reached wins and keeps
+   its value until a later control changes it); a link no control targets shows the winning true rule *)
+Corollary is_M_without_rules T st l : is_M T st -> (l < length st0)%nat -> (forall z, In z rl -> x_link z <> l) ->
+  (exists x, cwin T l x /\ nth l st false = x_val x) \/ (cnone T l /\ nth l st false = nth l st0 false).
+Proof.
+  intros [_ H] Hl Hnr. destruct (H l Hl) as [(x & Hx & _ & Hv)|[(_ & z & Hz & _)|(_ & [(x & Hx & Hv)|[Hn Hv]])]].
+  - left. exists x. split; assumption.
+  - exfalso. destruct Hz as (Hz1 & _ & Hz3 & _). exact (Hnr z Hz1 Hz3).
+  - left. exists x. split; assumption.
+  - right. split; assumption.
+Qed.
+Corollary is_M_without_controls T st l : is_M T st -> (l < length st0)%nat -> (forall x, In x cs -> x_link x <> l) ->
+  (exists z, rwin (KT T) l z /\ nth l st false = x_val z) \/ (rnone (KT T) l /\ nth l st false = nth l st0 false).
+Proof.
+  intros [_ H] Hl Hnc. destruct (H l Hl) as [(x & Hx & _ & _)|[(_ & z & Hz & Hv)|(Hrn & [(x & Hx & _)|[_ Hv]])]].
+  - exfalso. destruct Hx as (Hx1 & _ & Hx3 & _). exact (Hnc x Hx1 Hx3).
+  - left. exists z. split; assumption.
+  - exfalso. destruct Hx as (Hx1 & _ & Hx3 & _). exact (Hnc x Hx1 Hx3).
+  - right. split; assumption.
+Qed.
 End Mixed.
